@@ -1,6 +1,7 @@
 """C17 — concurrent analyses on snapshots (sharing, atomicity, lock order/scope, cancellation table)."""
 import re
 
+from .. import armlib as A
 from .. import hirlib as H
 from .. import mirlib as M
 from .. import tys
@@ -209,6 +210,8 @@ def run(ctx):
     rule_revision_source(ctx)
     rule_publication(ctx)
     rule_registry_atomic(ctx)
+    rule_guard_across_write(ctx)
+    rule_snapshot_shares(ctx)
     return {}
 
 
@@ -510,3 +513,103 @@ def _check_commit(ctx, rule):
               "commit_analysis does not re-check the revision under the session lock before writing `projects` "
               "(order_ok=%s, recheck=%s): a stale analysis could be published" % (order_ok, test_ok),
               ctx.facts.bodies()[fn]["loc"], detail={"acquisitions": names, "revision_recheck": test_ok})
+
+
+_GUARD_TY = re.compile(r"dashmap::mapref::(one::Ref|one::RefMut|one::MappedRef|entry::Entry|entry::OccupiedEntry|entry::VacantEntry|multiple::)|"
+                       r"std::sync::(mutex::)?MutexGuard|std::sync::(rwlock::)?RwLock(Read|Write)Guard|parking_lot::\w+Guard|lock_api::")
+
+
+def rule_guard_across_write(ctx):
+    """no lock guard of the shared registry is held across a salsa input write, which blocks until every snapshot is gone"""
+    rule = "guard-across-write"
+    facts = ctx.facts
+    ctx.rule(rule, "a salsa input write (`Setter::to`) blocks until every snapshot of the storage has been dropped, and an analysis running "
+                   "on a snapshot takes the shard lock of the shared `files` registry before it reaches a cancellation point. Therefore no "
+                   "guard of that registry (dashmap Ref / RefMut / Entry) — nor any other lock guard — may be live at a `Setter::to` call: "
+                   "forward may-analysis over MIR (a guard is held from the call that returns it until it is dropped or moved away). A "
+                   "guard kept \"to pin the entry\" deadlocks the owner against the snapshot it waits for")
+    n = 0
+    for fn, bd in sorted(facts.bodies().items()):
+        if not bd["loc"][0].startswith(("lang/session/", "editor/")) or "::tests::" in fn:
+            continue
+        m = facts.mir(fn)
+        if m is None:
+            continue
+        b = M.Body(fn, m)
+        writes = [bb for bb in range(b.n) if b.term(bb)["k"] == "call" and re.search(r"salsa::input::setter::Setter>::to$", b.term(bb).get("fn") or "")]
+        if not writes:
+            continue
+        n += len(writes)
+        guards = {i for i, l in enumerate(m["locals"]) if _GUARD_TY.search(l.get("ty") or "")}
+        held_at = {0: frozenset()}
+        work = [0]
+        while work:
+            bb = work.pop()
+            state = set(held_at[bb])
+            for s in b.stmts(bb):
+                d, rv = s.get("d"), s.get("rv")
+                if d is None or rv is None:
+                    continue
+                dl = M.place_local(d)
+                for op in rv.get("ops", []):
+                    # moving a guard, or the payload of a guard enum out of a match on it, hands the lock to the destination
+                    if op[0] == "m" and M.place_local(op[1]) in state and all(str(pr).startswith(("as:", "f")) for pr in M.place_proj(op[1])):
+                        state.discard(M.place_local(op[1]))
+                        if dl in guards:
+                            state.add(dl)
+            t = b.term(bb)
+            out = set(state)
+            if t["k"] == "drop" and M.place_local(t["p"]) in out and not M.place_proj(t["p"]):
+                out.discard(M.place_local(t["p"]))
+            if t["k"] == "call":
+                for a in t.get("args", []):
+                    if a[0] == "m" and M.place_local(a[1]) in out and not M.place_proj(a[1]):
+                        out.discard(M.place_local(a[1]))        # moved into the callee
+            for s2 in b.succs(bb):
+                o2 = set(out)
+                if t["k"] == "call" and s2 == t.get("t") and t.get("dest") is not None and M.place_local(t["dest"]) in guards:
+                    o2.add(M.place_local(t["dest"]))
+                new = frozenset(o2) | held_at.get(s2, frozenset())
+                if s2 not in held_at or new != held_at[s2]:
+                    held_at[s2] = new
+                    work.append(s2)
+        for bb in writes:
+            held = sorted(held_at.get(bb, frozenset()))
+            ctx.check(not held, rule, "%s:write@%d" % (M.short_fn(fn).split("::")[-1], writes.index(bb) + 1), "%s calls a salsa input setter "
+                      "while holding %s: the write blocks until every snapshot is dropped, and a snapshot analysis that needs the same "
+                      "registry shard blocks on the guard first — neither can proceed" % (fn, [(b.local_name(g) or "_%d" % g, (b.local_ty(g) or "")[:60]) for g in held]),
+                      [bd["loc"][0], b.term(bb).get("ln")], detail={"fn": M.short_fn(fn).split("::")[-1]})
+    ctx.floor(rule, "salsa input writes inspected", n, 4)
+
+
+def rule_snapshot_shares(ctx):
+    rule = "snapshot-shares-registry"
+    facts = ctx.facts
+    ctx.rule(rule, "a snapshot shares the `files` registry with its session (F5): every construction of a CompilerSession from another one "
+                   "takes `files` from a clone of the other's Arc (or derives Clone); a fresh `Arc::new(DashMap::clone(..))` gives the snapshot "
+                   "a private copy: a file it registers is unknown to the owner, which then creates a SECOND input for the path, and every "
+                   "later analysis reads the input nobody edits")
+    n = 0
+    for fn, bd in sorted(facts.bodies().items()):
+        if not bd["loc"][0].startswith("lang/session/") or "::tests::" in fn or "{closure" in fn:
+            continue
+        h = facts.hir(fn)
+        if h is None:
+            continue
+        for x in H.walk(h["body"]):
+            if H.kind(x) != "Struct" or not str((x.get("path") or {}).get("def") or x.get("ty") or "").endswith("CompilerSession"):
+                continue
+            fld = next((f_ for f_ in x.get("fields", []) if f_["name"] == "files"), None)
+            if fld is None:
+                continue
+            takes_self = any(p_.get("name") == "self" or "CompilerSession" in (p_.get("ty") or "") for p_ in (h.get("params") or []))
+            if not takes_self:
+                continue    # a constructor: a new registry is right
+            n += 1
+            env = A.ArmEnv(); env.strip = True; env.bind_params(h); env.absorb(h["body"])
+            sx = A.sexpr(fld["e"], env)
+            shared = re.match(r"^\((alloc::sync::Arc::<.*>::clone|<alloc::sync::Arc<.*> as core::clone::Clone>::clone) \(\. \$P0 files\)\)$", sx) is not None or sx == "(. $P0 files)"
+            ctx.check(shared, rule, "%s:files" % fn.split("::")[-1], "%s builds a CompilerSession whose `files` is %s: not the session's own "
+                      "registry" % (fn, sx[:120]), [bd["loc"][0], x.get("ln")])
+    derives = any(k.endswith("CompilerSession as core::clone::Clone>::clone") for k in facts.bodies())
+    ctx.check(n > 0 or derives, rule, "snapshot:clone", "CompilerSession is neither Clone nor rebuilt field-wise: the snapshot construction was not found")
